@@ -4,10 +4,12 @@
     mr_init       <- MapResult.__init__       (_number_left formula, the `chunksize <= 0` branch)
     mr_set        <- MapResult._set           (slice bounds, countdown, the three branches)
     mr_ack        <- MapResult._ack           (start/stop)
-    pins          <- Pool._get_tasks, mapstar, starmapstar, IMapIterator._set/_set_length/next,
-                     IMapUnorderedIterator._set, and the task/flattening expressions of Pool.imap /
-                     imap_unordered: outside the translatable subset (generators, containers), so their
-                     *text* is pinned; any edit makes the kernel fail to generate (fail closed) and the
+    IM.iset       <- IMapIterator._set        (reorder buffer: deque/dict operations are modelled calls,
+    IM.iset_length<- IMapIterator._set_length  the `while self._index in self._unsorted` loop is translated with
+    IM.uset       <- IMapUnorderedIterator._set  fuel = len(_unsorted))
+    pins          <- Pool._get_tasks, mapstar, starmapstar, IMapIterator.next, ApplyResult.get, and the
+                     task/flattening expressions of Pool.imap / imap_unordered: outside the translatable
+                     subset (generators, try/except), so their *text* is pinned; any edit makes the kernel fail to generate (fail closed) and the
                      correspondence run of C02 then looks for a concrete failing input.
 
 The functions are translated by pykernel.FuncTr (the shared, trusted expression/statement translator) after
@@ -21,6 +23,9 @@ exact syntactic shape and raises TranslateError on anything else.
     R5  for j in range(a, b): <three stores>     ->  mark_range(a, b)                      (modelled call)
     R6  *args in MapResult._ack's signature      ->  removed (must be unused)
     R7  statements listed in DROP (exact text)   ->  removed   (they do not touch the translated state)
+    R9  obj = self._unsorted.pop(k); self._items.append(obj)   ->  unsorted_move(k)     (modelled call)
+    R10 self._unsorted[i] = obj                  ->  unsorted_set(i, obj)                  (modelled call)
+    R11 del self._cache[self._job]               ->  cache_del(self._job)                  (as R4)
     R8  the tail of _map_async (exact text: _get_tasks(func, iterable, chunksize); MapResult(self._cache,
         chunksize, len(iterable), ...); the task generator; return result)  ->  return chunksize
 
@@ -250,6 +255,141 @@ def gen_mr_ack(kernel, tree, consts):
     return translate_fn(kernel, fn, fs, consts, where)
 
 
+# --------------------------------------------------- IMapIterator (module IM)
+IM_STATE = ['self._index', 'self._length', 'self._ready', 'self._job']
+
+IM_PRELUDE = '''\
+Record st := mk_st { f_self__index : pv; f_self__length : pv; f_self__ready : pv; f_self__job : pv;
+                     g_items : list pv;            (* _items (deque), objects are opaque tokens *)
+                     g_unsorted : list (Z * pv);   (* _unsorted (dict) *)
+                     g_incache : bool }.           (* self._job in self._cache *)
+Definition set_self__index (s : st) (v : pv) : st :=
+  mk_st v (f_self__length s) (f_self__ready s) (f_self__job s) (g_items s) (g_unsorted s) (g_incache s).
+Definition set_self__length (s : st) (v : pv) : st :=
+  mk_st (f_self__index s) v (f_self__ready s) (f_self__job s) (g_items s) (g_unsorted s) (g_incache s).
+Definition set_self__ready (s : st) (v : pv) : st :=
+  mk_st (f_self__index s) (f_self__length s) v (f_self__job s) (g_items s) (g_unsorted s) (g_incache s).
+Definition set_self__job (s : st) (v : pv) : st :=
+  mk_st (f_self__index s) (f_self__length s) (f_self__ready s) v (g_items s) (g_unsorted s) (g_incache s).
+
+(* modelled containers: dict get / remove by key, deque append *)
+Fixpoint dget (d : list (Z * pv)) (k : Z) : option pv :=
+  match d with [] => None | (k', v) :: r => if k' =? k then Some v else dget r k end.
+Fixpoint dremove (d : list (Z * pv)) (k : Z) : list (Z * pv) :=
+  match d with
+  | [] => []
+  | (k', v) :: r => if k' =? k then dremove r k else (k', v) :: dremove r k
+  end.
+(* `self._index in self._unsorted` *)
+Definition unsorted_has (s : st) : pv :=
+  match f_self__index s with
+  | PInt i => PBool (match dget (g_unsorted s) i with Some _ => true | None => false end)
+  | PErr e => PErr e
+  | _ => PBool false
+  end.
+Definition items_append (s : st) (a : list pv) : outcome st pv :=
+  match a with
+  | [x] => Ok PNone (mk_st (f_self__index s) (f_self__length s) (f_self__ready s) (f_self__job s)
+                           (g_items s ++ [x]) (g_unsorted s) (g_incache s))
+  | _ => Exc TypeError s
+  end.
+(* obj = self._unsorted.pop(k); self._items.append(obj) *)
+Definition unsorted_move (s : st) (a : list pv) : outcome st pv :=
+  match a with
+  | [PInt k] =>
+      match dget (g_unsorted s) k with
+      | Some o => Ok PNone (mk_st (f_self__index s) (f_self__length s) (f_self__ready s) (f_self__job s)
+                                  (g_items s ++ [o]) (dremove (g_unsorted s) k) (g_incache s))
+      | None => Exc KeyError s
+      end
+  | _ => Exc TypeError s
+  end.
+(* self._unsorted[i] = obj *)
+Definition unsorted_set (s : st) (a : list pv) : outcome st pv :=
+  match a with
+  | [PInt k; o] => Ok PNone (mk_st (f_self__index s) (f_self__length s) (f_self__ready s) (f_self__job s)
+                                   (g_items s) ((k, o) :: dremove (g_unsorted s) k) (g_incache s))
+  | _ => Exc TypeError s
+  end.
+Definition cache_del (s : st) (_ : list pv) : outcome st pv :=
+  if g_incache s
+  then Ok PNone (mk_st (f_self__index s) (f_self__length s) (f_self__ready s) (f_self__job s)
+                       (g_items s) (g_unsorted s) false)
+  else Exc KeyError s.
+Definition noop (s : st) (_ : list pv) : outcome st pv := Ok PNone s.
+'''
+
+IM_CALLS = {
+    'self._items.append': 'items_append',
+    'unsorted_move': 'unsorted_move',
+    'unsorted_set': 'unsorted_set',
+    'cache_del': 'cache_del',
+    'self._cond.notify': 'noop',
+}
+
+
+class IMRewriter(ast.NodeTransformer):
+    """R9 R10 R11"""
+
+    def __init__(self, where):
+        self.where = where
+
+    def rewrite_body(self, body):
+        out = []
+        i = 0
+        while i < len(body):
+            st = body[i]
+            # R9: two consecutive statements
+            if ast.unparse(st) == 'obj = self._unsorted.pop(self._index)':
+                expect(i + 1 < len(body) and ast.unparse(body[i + 1]) == 'self._items.append(obj)',
+                       self.where, 'R9: pop not followed by append(obj)')
+                new = ast.parse('unsorted_move(self._index)').body[0]
+                out.append(ast.copy_location(new, st))
+                i += 2
+                continue
+            out.append(self.visit(st))
+            i += 1
+        return out
+
+    def generic_visit(self, node):
+        for field in ('body', 'orelse'):
+            val = getattr(node, field, None)
+            if isinstance(val, list) and val and isinstance(val[0], ast.stmt):
+                setattr(node, field, self.rewrite_body(val))
+        return node
+
+    def visit_Assign(self, st):
+        if len(st.targets) == 1 and isinstance(st.targets[0], ast.Subscript):
+            # R10
+            expect(ast.unparse(st) == 'self._unsorted[i] = obj', self.where,
+                   'unsupported subscript store `%s`' % ast.unparse(st))
+            return ast.copy_location(ast.parse('unsorted_set(i, obj)').body[0], st)
+        return st
+
+    def visit_Delete(self, st):
+        # R11
+        expect(ast.unparse(st) == 'del self._cache[self._job]', self.where,
+               'unsupported del `%s`' % ast.unparse(st))
+        return ast.copy_location(ast.parse('cache_del(self._job)').body[0], st)
+
+
+def gen_im(tree_src, consts, repo):
+    kernel = Kernel(dict(name='K_reassembly.IM', file=FILE, state=IM_STATE, calls=IM_CALLS,
+                         atomic_with=['self._cond']), repo)
+    defs = []
+    for qual, coqname, params in (('IMapIterator._set', 'iset', ['i', 'obj']),
+                                  ('IMapIterator._set_length', 'iset_length', ['length']),
+                                  ('IMapUnorderedIterator._set', 'uset', ['i', 'obj'])):
+        fn = find_func(ast.parse(tree_src), qual)
+        fn.body = IMRewriter(qual).rewrite_body(strip_doc(fn.body))
+        ast.fix_missing_locations(fn)
+        fs = dict(qual=qual, coqname=coqname, params=params,
+                  exprs={'self._index in self._unsorted': 'unsorted_has s'},
+                  while_fuel='length (g_unsorted s)')
+        defs.append(FuncTr(kernel, fs, fn, consts).translate())
+    return 'Module IM.\n' + IM_PRELUDE + '\n' + '\n'.join(defs) + 'End IM.\n'
+
+
 # ------------------------------------------------------------------ text pins
 PINS = {
     'Pool._get_tasks': '''
@@ -292,43 +432,6 @@ def next(self, timeout=None):
     if success:
         return value
     raise Exception(value)
-''',
-    'IMapIterator._set': '''
-def _set(self, i, obj):
-    with self._cond:
-        if self._index == i:
-            self._items.append(obj)
-            self._index += 1
-            while self._index in self._unsorted:
-                obj = self._unsorted.pop(self._index)
-                self._items.append(obj)
-                self._index += 1
-            self._cond.notify()
-        else:
-            self._unsorted[i] = obj
-
-        if self._index == self._length:
-            self._ready = True
-            del self._cache[self._job]
-''',
-    'IMapIterator._set_length': '''
-def _set_length(self, length):
-    with self._cond:
-        self._length = length
-        if self._index == self._length:
-            self._ready = True
-            self._cond.notify()
-            del self._cache[self._job]
-''',
-    'IMapUnorderedIterator._set': '''
-def _set(self, i, obj):
-    with self._cond:
-        self._items.append(obj)
-        self._index += 1
-        self._cond.notify()
-        if self._index == self._length:
-            self._ready = True
-            del self._cache[self._job]
 ''',
     'ApplyResult.get': '''
 def get(self, timeout=None):
@@ -413,6 +516,7 @@ def generate(repo):
     out.append('')
     out.append(PRELUDE)
     out.extend(defs)
+    out.append(gen_im(src, consts, repo))
     out.append('(* pinned (text-compared) on this run: %s; fragments of %s *)' % (
         ', '.join(sorted(PINS)), ', '.join(sorted(FRAGMENTS))))
     out.append('Definition pins_checked : nat := %d.' % (len(PINS) + sum(len(v) for v in FRAGMENTS.values())))
